@@ -149,6 +149,26 @@ CLAIMS['C20'] = dict(
     note='Trusted: clang 14 front end/CFG.',
     ref='5 (C20)')
 
+CLAIMS['C16'] = dict(
+    technique='deviant-behaviour (contradiction) rule on comparison style per function, dominance queries',
+    text=('Decides the letter-case and line-end clauses: within every code-generator function a given operand text is '
+          'compared with keyword literals in one style only (case-insensitive, or exact after up-casing); the mnemonic '
+          'is up-cased before every lookup of the line decoder; ReadLnCont() strips the CR of a CR-LF line end before '
+          'it tests for a continuation backslash. Blanks, comments, label colon and INCLUDE/macro wrapping are not '
+          'decided.'),
+    note='Trusted: clang 14 front end/CFG. The comparison-style rule is relative: it cannot see a function that compares a text exactly throughout.',
+    ref='5 (C16)')
+CLAIMS['C17'] = dict(
+    technique='non-interference by effect analysis per read site (MOD of exclusively controlled regions, report sinks), who-may-call rules',
+    text=('Decides: every read of a report-only option inside a pass is the condition of a region that writes no '
+          'code-affecting state and raises at most warnings, a copy into a derived option, or an operand of a report '
+          'sink; the dual-use options -h/-SPLITBYTE are confined to formatting routines and consumers of formatted '
+          'float text search case-agnostically; clock/environment/cwd are read only at reviewed sites; environment, key '
+          'file and argv feed one decoder with one table. Listing/MAP text reproducibility and locale effects are not '
+          'decided.'),
+    note='Trusted: clang 14 front end/CFG; the lists of report options, code-affecting state and report sinks in rules/c17.py; three listed exceptions.',
+    ref='5 (C17), 4 (A5-ii)')
+
 NA_REASONS = {}
 
 
